@@ -147,3 +147,31 @@ func VC_C10_new_func() {
 	verifAssert(v.Pointer() == code, "C10.newfunc.code-pointer-is-the-one-looked-up")
 	verifReached("C10.newfunc")
 }
+
+var vSeqN = [4]string{"n0", "n1", "n2", "n3"}
+
+// VC_C10_lookup_sequence: what a lookup answers depends on its own name only, not on the
+// lookups made before it (a repeated absent name after a successful lookup, alternating
+// kinds, the same name twice): present names resolve exactly, absent ones are an error.
+func VC_C10_lookup_sequence() {
+	fa, va, st, sd := vSetup()
+	absent := [3]string{"example.com/p.alp", "example.com/p.nope", "example.com/p.counte"}
+	isVar := verifBool("vars")
+	for step := 0; step < 4; step++ {
+		k := verifChoice(vSeqN[step], 6)
+		if k < 3 {
+			if isVar {
+				a, err, p := vFind(vVarNames[k], true)
+				verifAssert(!p && err == nil && a == uintptr(va[k])+sd, "C10.sequence.present-resolves-exactly")
+			} else {
+				a, err, p := vFind(vFuncNames[k], false)
+				verifAssert(!p && err == nil && a == uintptr(fa[k])+st, "C10.sequence.present-resolves-exactly")
+			}
+			continue
+		}
+		a, err, p := vFind(absent[k-3], isVar)
+		verifAssert(p || err != nil, "C10.sequence.absent-is-error")
+		verifAssert(a == 0, "C10.sequence.absent-no-address")
+	}
+	verifReached("C10.sequence")
+}
